@@ -1,7 +1,7 @@
 from cfg.common import FLOAT_ASSUMPTION, NOTE_COMMON
 
 PROP = {
-    'anchors': [('train/braking_point.rs', 'calc_speeds'), ('train/braking_point.rs', 'recalc'), ('train/speed_limit_train_sim.rs', 'solve_required_pwr'), ('train/speed_limit_train_sim.rs', 'solve_step'), ('train/speed_limit_train_sim.rs', 'walk_internal'), ('train/speed_limit_train_sim.rs', 'extend_path'), ('train/friction_brakes.rs', 'set_cur_force_max_out')],
+    'anchors': [('track/path_track/speed_point.rs', 'insert_speed'), ('track/path_track/path_tpc.rs', 'add_speeds'), ('track/path_track/path_tpc.rs', 'extend'), ('train/braking_point.rs', 'calc_speeds'), ('train/braking_point.rs', 'recalc'), ('train/speed_limit_train_sim.rs', 'solve_required_pwr'), ('train/speed_limit_train_sim.rs', 'solve_step'), ('train/speed_limit_train_sim.rs', 'walk_internal'), ('train/speed_limit_train_sim.rs', 'extend_path'), ('train/friction_brakes.rs', 'set_cur_force_max_out')],
     'blocks': ['train'],
     'proof_modules': ['C03'],
     'namespaces': ['Altrios.Proofs.C03'],
